@@ -272,6 +272,9 @@ pub struct SimChain {
     pub rpc_down_from: Option<u64>,
     /// When set, the outage ends by itself after this many (further) failed RPCs.
     pub rpc_down_failures_left: Option<u64>,
+    /// The first call of the outage is still executed by the node, but the connection is lost while its reply is on
+    /// the way: the caller gets a reply cut in the middle (a parse error, not a transport error).
+    pub rpc_cut_first: bool,
     /// (n, f): once an outage has been seen and is over, the n-th successful RPC from then on is
     /// the start of another outage of f failed calls.
     pub second_outage: Option<(u64, u64)>,
@@ -321,6 +324,7 @@ impl SimChain {
             rpc_count: 0,
             rpc_down_from: None,
             rpc_down_failures_left: None,
+            rpc_cut_first: false,
             second_outage: None,
             rpc_override: None,
             first_outage_seen: false,
@@ -596,6 +600,31 @@ impl SimChain {
     // ---- node RPC ------------------------------------------------------------------------
 
     fn rpc(&mut self, method: &str, params: &serde_json::Value) -> Result<serde_json::Value, RpcFailure> {
+        if self.rpc_cut_first && self.rpc_down_from == Some(self.rpc_count) {
+            // the node executes this call; the connection is lost while the reply is on its way
+            self.rpc_cut_first = false;
+            let from = self.rpc_down_from.take();
+            let left = self.rpc_down_failures_left.take();
+            let _ = self.rpc_inner(method, params);
+            if let Some(r) = self.rpc_log.last_mut() {
+                r.verdict = format!("{}:reply-cut", r.verdict);
+            }
+            self.outage_started = true;
+            self.first_outage_seen = true;
+            match left {
+                Some(n) if n <= 1 => {}
+                Some(n) => {
+                    self.rpc_down_from = from;
+                    self.rpc_down_failures_left = Some(n - 1);
+                }
+                None => self.rpc_down_from = from,
+            }
+            return Err(RpcFailure::Cut);
+        }
+        self.rpc_inner(method, params)
+    }
+
+    fn rpc_inner(&mut self, method: &str, params: &serde_json::Value) -> Result<serde_json::Value, RpcFailure> {
         let idx = self.rpc_count;
         self.rpc_count += 1;
         let node_height = self.height();
@@ -785,7 +814,7 @@ impl SimChain {
         match self.rpc(method, params) {
             Ok(v) => Ok(v),
             Err(RpcFailure::Rpc(c, m)) => Err((c, m)),
-            Err(RpcFailure::Transport) => Err((-28, "unreachable".into())),
+            Err(RpcFailure::Transport) | Err(RpcFailure::Cut) => Err((-28, "unreachable".into())),
         }
     }
 
@@ -818,6 +847,8 @@ impl SimChain {
 
 pub enum RpcFailure {
     Transport,
+    /// the reply was cut in the middle
+    Cut,
     Rpc(i32, String),
 }
 
@@ -919,6 +950,8 @@ impl jsonrpc::Transport for SimTransport {
                 jsonrpc: Some("2.0".into()),
             }),
             Err(RpcFailure::Transport) => Err(jsonrpc::Error::Transport(Box::new(SimTransportError))),
+            // what jsonrpc's HTTP transport returns for a 200 reply whose body ends early
+            Err(RpcFailure::Cut) => Err(jsonrpc::Error::Json(serde_json::from_str::<serde_json::Value>("{\"result\":\"5f1b").unwrap_err())),
         }
     }
 
